@@ -415,5 +415,38 @@ impl<'de, R: Reader<'de>> Deserializer<R> {
 //@end
 }
 
+// ---- the entry point behind from_str / from_slice / from_reader-less paths
+/// stand-in for serde::Deserialize: some program that consumes a prefix of the rest of the input
+pub trait Deserialize<'de>: Sized {
+    /// where this type's deserializer stops on the text s when started at 0 (uninterpreted per type)
+    spec fn consumed(s: Seq<u8>) -> int;
+    fn deserialize<R: Reader<'de>>(d: &mut Deserializer<R>) -> (r: Result<Self>)
+        requires old(d).parser.pinv(), old(d).parser.read.idx() == 0,
+        ensures final(d).parser.pinv(), final(d).parser.same_doc(&old(d).parser),
+            r.is_ok() ==> final(d).parser.read.idx() == Self::consumed(old(d).parser.read.data());
+}
+impl<'de, R: Reader<'de>> Deserializer<R> {
+    #[verifier::external_body]
+    pub fn new(read: R) -> (d: Self)
+        requires read.wf(), read.idx() == 0, read.data().len() <= 0x3fff_ffff_ffff_ffff,
+        ensures d.parser.pinv(), d.parser.read.data() == read.data(), d.parser.read.idx() == 0,
+    { unimplemented!() }
+}
+// substitution target for `crate::error::make_error(format!(..len..))`
+#[verifier::external_body]
+pub fn too_large_error(len: usize) -> (e: Error) { unimplemented!() }
+
+//@extract file=src/serde/de.rs fn=from_trait
+//@subst /T: de::Deserialize<'de>,/ => T: Deserialize<'de>,
+//@subst /crate::error::make_error\(format!\(\s*"Only support JSON less than 4 GB, the input JSON is too large here, len is \{len\}"\s*\)\)/ => too_large_error(len)
+//@subst /de::Deserialize::deserialize\(&mut de\)/ => T::deserialize(&mut de)
+//@sig
+    requires read.wf(), read.idx() == 0,
+    ensures
+        // the 4 GB guard, "the whole input has been consumed" and the deferred UTF-8 verdict: a value is returned only
+        // if the input is at most u32::MAX bytes long and nothing but whitespace follows what T's deserializer consumed
+        res.is_ok() ==> read.data().len() <= 0xffff_ffff && ws_end(read.data(), T::consumed(read.data())) == read.data().len(),
+//@end
+
 } // verus!
 fn main() {}
